@@ -85,6 +85,16 @@ def main():
     summary = {}
     for sid in ids:
         summary[sid] = run_one(sid, a.tier, a.props.split(",") if a.props else None)
+    # committed summary: latest verdict per seed and tier (history notes are kept by hand)
+    rp = os.path.join(VERIF, "seeded", "RESULTS.json")
+    try:
+        allres = json.load(open(rp))
+    except Exception:
+        allres = {}
+    for sid, r in summary.items():
+        if r:
+            allres.setdefault(sid, {})[a.tier] = r
+    json.dump(allres, open(rp, "w"), indent=1)
     out = os.path.join(VERIF, "work", "seeded-results-" + a.tier + ".json")
     os.makedirs(os.path.dirname(out), exist_ok=True)
     old = {}
